@@ -100,10 +100,15 @@ class PoolGraph:
                 x = b
                 while auto[x]:
                     nx = self.out[x]
-                    if len(nx) != 1:
+                    if len(nx) > 1:
                         raise vf.Inconclusive("auto chain is not deterministic at %s" % (self.nodes[x],))
+                    if not nx:
+                        x = None      # a simulation walk ended here: the gate-level step is incomplete
+                        break
                     x = nx[0]
                     chain.append(x)
+                if x is None:
+                    continue
                 if cmd["cmd"] == "kill":
                     for f, v in self.nodes[a]["fpc"].items():
                         if f.startswith("h") and v == "idle" and self.nodes[x]["fpc"][f] != "idle":
@@ -231,3 +236,400 @@ def walks_from_sim(init, edges):
     if cur and len(cur) > 1:
         walks.append(cur)
     return walks
+
+
+# ------------------------------------------------------------------ verdict tables
+
+POOL_KEYS = {
+    "ReportedNotInPool_AddedDead": ("pool-dead-conn-added",
+                                    "a connection that died between its handshake and connect()'s critical section was appended "
+                                    "to the pool after its error callback had run: reported closed, still in the pool, never replaced"),
+    "ReportedNotInPool_NotRemoved": ("pool-dead-conn-not-removed", "a pooled connection reported closed was not removed from its pool"),
+    "SizeBound": ("pool-size-exceeded", "a pool held more connections than configured"),
+    "OneFiller": ("pool-two-fillers", "two fillers were past the re-check of one pool at the same time"),
+    "ClosedEmpty": ("pool-conn-in-closed-pool", "a closed pool held a connection"),
+    "NoLeakAfterClose": ("pool-conn-leak-after-close", "a connection opened for a pool stayed open after the pool was closed"),
+    "NoStray": ("pool-stray-conn", "an open connection is neither in its pool nor on its way in or out"),
+    "PoolConnsAlive": ("pool-closed-conn-kept", "a pool kept a connection whose driver end is closed"),
+    "FillAfterClose": ("pool-fill-after-close", "a fill started on a closed pool"),
+    "CloseTwice": ("pool-close-twice", "a pool was closed twice"),
+}
+
+DEFECT_EXHIBITS = [
+    # cfg, expected, what it shows
+    ("Lifecycle_x_heartbeat.cfg", "AllClosedAfterClose", "heartBeat scheduled after controlConn.close starts and reconnects after Close"),
+    ("Lifecycle_x_latepool.cfg", "AllClosedAfterClose", "a pool created by a refresh after policyConnPool.Close is never closed"),
+    ("Lifecycle_x_selfwait.cfg", "deadlock", "reconnect run inline on the refresh flusher waits for the flusher itself"),
+]
+
+
+def _monitor(ctx, path, name):
+    r = vf.run_tlc(ctx, "Trace_PoolMon", "Trace_PoolMon.cfg", workers=1, heap="2g", timeout=600,
+                   env={"VF_TRACE": path}, deadlock=False, name=name, quiet=True)
+    if not r.ok:
+        raise vf.Inconclusive("monitor run failed on %s: %s\n%s" % (name, r.error or r.violated, r.out[-1500:]))
+    done = vf.tlc_printed(r.out, "MONDONE")
+    if not done:
+        raise vf.Inconclusive("monitor did not reach the end of %s" % name)
+    return vf.tlc_printed(r.out, "MONVIOL"), vf.tlc_printed(r.out, "MONDRIFT"), done[0]["lines"], r
+
+
+def _race_reports(out):
+    """(function, is_harness_only) for every data race reported by the race detector."""
+    res = []
+    for blk in re.findall(r"WARNING: DATA RACE\n(.*?)\n==================", out, re.S):
+        funcs = re.findall(r"^  (github\.com/gocql/gocql\S*?)\(", blk, re.M)
+        # the two accessing frames are the first frame after "Read at"/"Write at"/"Previous ..." lines
+        acc = re.findall(r"(?:Read|Write|Previous read|Previous write) at [^\n]*\n  (\S+?)\(", blk)
+        drv = [f for f in acc if "gocql" in f and not re.search(r"gocql\.(\(\*)?(vf|Vf|TestVf)", f)]
+        res.append((acc, drv, blk))
+    return res
+
+
+def run(ctx):
+    quick = ctx.tier == "quick"
+    ctx.level = "model_checking"
+    W = int(os.environ.get("VF_TLC_WORKERS", "0")) or None
+    states = trans = 0
+    configs = []
+
+    def note(r, cfg):
+        nonlocal states, trans
+        states += r.distinct
+        trans += r.generated
+        configs.append(dict(cfg=cfg, distinct=r.distinct, generated=r.generated, depth=r.depth, wall=round(r.wall, 1)))
+
+    pool = cf.ThreadPoolExecutor(6)
+
+    # ---- 1. model passes (run in the background while the harness is built and driven)
+    def must(module, cfg, **kw):
+        r = vf.run_tlc(ctx, module, cfg, **kw)
+        return r, cfg
+
+    bg = []
+    bg.append(pool.submit(must, "MC_Pool", "MC_Pool_quick.cfg", workers=W or 4, timeout=600, extra=["-lncheck", "final"]))
+    bg.append(pool.submit(must, "Lifecycle", "Lifecycle_fixed.cfg", workers=W or 6, timeout=600))
+    bg.append(pool.submit(must, "Lifecycle", "Lifecycle_fixed_live.cfg", workers=W or 4, timeout=900, extra=["-lncheck", "final"]))
+    if not quick:
+        bg.append(pool.submit(must, "MC_Pool", "MC_Pool_thorough.cfg", workers=W or 8, timeout=1500, heap="8g", extra=["-lncheck", "final"]))
+        bg.append(pool.submit(must, "Lifecycle", "Lifecycle_fixed_live2.cfg", workers=W or 4, timeout=1500, heap="8g", extra=["-lncheck", "final"]))
+    exh = [pool.submit(must, "Lifecycle", c, workers=2, timeout=300, extra=["-noGenerateSpecTE"]) for c, _, _ in DEFECT_EXHIBITS]
+    exh_pool = pool.submit(must, "MC_Pool", "MC_Pool_defect.cfg", workers=2, timeout=300, extra=["-noGenerateSpecTE"])
+
+    # the deadlock TLC finds in the hand-shake of the code as it is today -> gate schedule
+    cex_path = os.path.join(ctx.tmp, "cex_stop.json")
+    rd = vf.run_tlc(ctx, "Lifecycle", "Lifecycle_defect.cfg", workers=2, timeout=300,
+                    extra=["-noGenerateSpecTE", "-dumpTrace", "json", cex_path])
+    if rd.violated != "deadlock" or not os.path.exists(cex_path):
+        raise vf.Inconclusive("Lifecycle.tla with Defect_StopHandshake = TRUE did not produce the deadlock counterexample "
+                              "(violated=%s error=%s)" % (rd.violated, rd.error))
+    note(rd, "Lifecycle_defect")
+    cex_states = [deb_proj_of_state(s[1]) for s in json.load(open(cex_path))["counterexample"]["state"]]
+    cex_sched = deb_schedule(cex_states, 0, "cex")
+    ctx.log("deadlock counterexample (%d states) -> schedule: %s" % (
+        len(cex_states), " ".join("%s%s" % (s["cmd"], (":" + s["who"]) if s["who"] else "") for s in cex_sched["steps"])))
+
+    # simulation walks of the repaired debouncer protocol
+    nsim = 60 if quick else 600
+    rs = vf.run_tlc(ctx, "MC_Lifecycle", "MC_Lifecycle_deb.cfg", workers=1, timeout=600, simulate="num=%d" % nsim, depth=40,
+                    deadlock=False, extra=["-seed", str(ctx.seed), "-noGenerateSpecTE"], name="deb_sim")
+    if not rs.ok:
+        raise vf.Inconclusive("debouncer simulation failed: %s\n%s" % (rs.error or rs.violated, rs.out[-1500:]))
+    dinit = vf.tlc_printed(rs.out, "INIT")
+    dedges = vf.tlc_printed(rs.out, "EDGE")
+    if not dinit or not dedges:
+        raise vf.Inconclusive("debouncer simulation produced no edges")
+    walks = walks_from_sim(dinit[0], dedges)
+    deb_scheds = [cex_sched] + [deb_schedule(w, i + 1, "sim", final_blocked=False) for i, w in enumerate(walks)]
+    dsp = os.path.join(ctx.tmp, "deb_schedules.ndjson")
+    vf.write_ndjson(dsp, deb_scheds)
+    ctx.log("debouncer behaviours: 1 counterexample + %d simulation walks" % len(walks))
+
+    # ---- 2. Pool: every edge of the eager graph -> schedules
+    re_ = vf.run_tlc(ctx, "MC_Pool", "MC_Pool_edges.cfg", workers=1, timeout=600, deadlock=False, name="pool_edges",
+                     extra=["-noGenerateSpecTE"])
+    if not re_.ok:
+        raise vf.Inconclusive("pool edge dump failed: %s\n%s" % (re_.error or re_.violated, re_.out[-2000:]))
+    pinit = vf.tlc_printed(re_.out, "INIT")
+    pedges = vf.tlc_printed(re_.out, "EDGE")
+    if not pinit or not pedges:
+        raise vf.Inconclusive("pool edge dump produced nothing")
+    g = PoolGraph(pinit[0], pedges)
+    scheds, nmacro, _ = pool_schedules(g, 2)
+    ctx.log("pool graph walk: %d states, %d edges, %d gate-level edges, %d schedules, %d steps" % (
+        len(g.nodes), g.nedges, nmacro, len(scheds), sum(len(s["steps"]) for s in scheds)))
+    nwalk = 0
+    if not quick:
+        rw = vf.run_tlc(ctx, "MC_Pool", "MC_Pool_sim.cfg", workers=1, timeout=900, simulate="num=400", depth=60, deadlock=False,
+                        extra=["-seed", str(ctx.seed), "-noGenerateSpecTE"], name="pool_sim")
+        if not rw.ok:
+            raise vf.Inconclusive("pool simulation failed: %s" % (rw.error or rw.violated))
+        wi, we = vf.tlc_printed(rw.out, "INIT"), vf.tlc_printed(rw.out, "EDGE")
+        g3 = PoolGraph(wi[0], we)
+        m3 = g3.macro()
+        # each walk as a path of macro edges
+        paths = []
+        for w in walks_from_sim(wi[0], we):
+            ids = [g3.nid(p) for p in w]
+            path, i = [], 0
+            while i < len(ids) - 1:
+                a = ids[i]
+                hit = None
+                for k, (y, cmd, chain) in enumerate(m3.get(a, [])):
+                    if ids[i:i + len(chain)] == chain:
+                        hit = (k, len(chain))
+                        break
+                if hit is None:
+                    break
+                path.append((a, hit[0]))
+                i += hit[1] - 1
+            if path:
+                paths.append(path)
+        s3, _, _ = pool_schedules(g3, 3, paths)
+        for s in s3:
+            s["n"] += len(scheds)
+        nwalk = len(s3)
+        scheds += s3
+        ctx.log("pool simulation walks (size 3, 3 triggers, 2 kills): %d" % nwalk)
+    psp = os.path.join(ctx.tmp, "pool_schedules.ndjson")
+    vf.write_ndjson(psp, scheds)
+
+    # ---- 3. build and drive the real code (four independent processes)
+    binary = vf.build_gotest(ctx, ".", ["common", "c17"])
+    ptr = os.path.join(ctx.tmp, "pool_traces.ndjson")
+    dtr = os.path.join(ctx.tmp, "deb_results.ndjson")
+    scn = os.path.join(ctx.tmp, "scenarios.ndjson")
+    str_ = os.path.join(ctx.tmp, "session_traces.ndjson")
+    nruns = 40 if quick else 400
+    jobs = {
+        "pool": pool.submit(vf.run_gotest, ctx, binary, "^TestVfC17PoolReplay$",
+                            env={"VF_SCHEDULES": psp, "VF_TRACES": ptr, "VF_PAR": 8 if quick else 12}, timeout=900),
+        "deb": pool.submit(vf.run_gotest, ctx, binary, "^TestVfC17Debouncer$",
+                           env={"VF_SCHEDULES": dsp, "VF_TRACES": dtr, "VF_PAR": 8, "VF_WATCHDOG_MS": 1500}, timeout=900),
+        "scen": pool.submit(vf.run_gotest, ctx, binary, "^TestVfC17Scenarios$", env={"VF_TRACES": scn}, timeout=300),
+        "sess": pool.submit(vf.run_gotest, ctx, binary, "^TestVfC17Sessions$",
+                            env={"VF_TRACES": str_, "VF_NRUNS": nruns, "VF_BATCH": 8}, timeout=900),
+    }
+    outs = {}
+    crashed = {}
+    for k, f in jobs.items():
+        rc, out = f.result()
+        outs[k] = out
+        if "VFSUMMARY" not in out:
+            pm = re.search(r"^(panic: [^\n]*|fatal error: [^\n]*)\n(.*)", out, re.M | re.S)
+            if pm and "test timed out" not in pm.group(1):
+                # the process died: a panic in driver code while a Session was used / closed
+                frames = re.findall(r"^github\.com/gocql/gocql\.(\S+?)\(", pm.group(2)[:6000], re.M)
+                drv = [f_ for f_ in frames if not re.match(r"(\(\*)?(vf|Vf|TestVf)", f_)]
+                if drv:
+                    fn = drv[0].replace("(*", "").replace(")", "")
+                    ctx.violation("panic:" + fn, "the process died in driver code (%s) while the %s driver used / closed a Session: %s" % (
+                        fn, k, pm.group(1)), out[-6000:])
+                    crashed[k] = True
+                    continue
+            raise vf.Inconclusive("driver %s gave no summary (rc=%s):\n%s" % (k, rc, out[-3000:]))
+    if crashed:
+        ctx.log("driver process(es) died in driver code: %s" % sorted(crashed))
+        ctx.cov = dict(states=rd.distinct, transitions=rd.generated, traces_validated_against_impl=0,
+                       samples=[dict(kind="crash", drivers=sorted(crashed))])
+        pool.shutdown(wait=False)
+        return
+
+    # ---- 4a. pool replay: conformance + property invariants evaluated by TLC on the real traces
+    psum = json.loads(re.search(r"^VFSUMMARY (.*)$", outs["pool"], re.M).group(1))
+    ctx.log("pool replay: %d schedules, %d steps, %d diverged, %d harness errors" % (
+        psum["Schedules"], psum["Steps"], psum["Diverged"], psum["Errors"]))
+    if psum["Errors"]:
+        raise vf.Inconclusive("pool replay harness errors: %s" % psum["FirstError"])
+    pviol, pdrift, plines, rmon = _monitor(ctx, ptr, "mon_pool")
+    note(rmon, "Trace_PoolMon(pool replay)")
+    ptraces = vf.read_ndjson(ptr)
+    by_sched = collections.defaultdict(list)
+    for rec in ptraces:
+        by_sched[rec["sched"]].append(rec)
+    explained = set()
+    for v in pviol:
+        key, what = POOL_KEYS.get(v["kind"], ("pool-" + v["kind"], v["kind"]))
+        div = [r["q"] for r in by_sched[v["sched"]] if r["ev"] == "h_diverged"]
+        ctx.violation(key, "%s (schedule %d of the Pool.tla graph walk, record %d)" % (what, v["sched"], v["k"]),
+                      dict(schedule=[s for s in scheds if s["n"] == v["sched"]][:1], divergence=div, trace=by_sched[v["sched"]][-40:]))
+        explained.add(v["sched"])
+    diverged = set(r["sched"] for r in ptraces if r["ev"] == "h_diverged")
+    unexplained = sorted(diverged - explained)
+    if unexplained:
+        first = [r["q"] for r in by_sched[unexplained[0]] if r["ev"] == "h_diverged"][0]
+        ctx.add_drift("the real hostConnPool left Pool.tla on %d of %d schedules without breaking a property invariant "
+                      "(first: schedule %d: %s)" % (len(unexplained), psum["Schedules"], unexplained[0], first))
+    if pdrift:
+        ctx.add_drift("pool hook arguments disagree with the monitor's count on %d records (first: %s)" % (len(pdrift), pdrift[0]))
+    followed = psum["Schedules"] - len(diverged)
+
+    # ---- 4b. debouncer behaviours
+    dres = vf.read_ndjson(dtr)
+    drecs = []
+    for r in sorted(dres, key=lambda r: r["n"]):
+        drecs.append(dict(sched=r["n"], k=0, ev="init", obj=0, a=0, size=0, closed=False, conns=[], open=[], dead=[], gor=0, q=""))
+        drecs.append(dict(sched=r["n"], k=1, ev="d_end", obj=0, a=r["followed"], size=0, closed=False, conns=[], open=[], dead=[],
+                          gor=0, q="hang" if r["hang"] else "ok"))
+    dmp = os.path.join(ctx.tmp, "deb_mon.ndjson")
+    vf.write_ndjson(dmp, drecs)
+    dviol, _, _, rmon2 = _monitor(ctx, dmp, "mon_deb")
+    byn = {r["n"]: r for r in dres}
+    cexr = byn.get(0)
+    if cexr is None:
+        raise vf.Inconclusive("the counterexample schedule was not executed")
+    ctx.log("debouncer: counterexample %s on the real refreshDebouncer (followed %d/%d steps%s); %d of %d simulation walks hang" % (
+        "REPRODUCED" if cexr["hang"] else "not reproduced", cexr["followed"], cexr["steps"],
+        (", stuck: " + cexr["stuck"]) if cexr["stuck"] else "", sum(1 for r in dres if r["hang"] and r["n"] != 0), len(dres) - 1))
+    for v in dviol:
+        r = byn[v["sched"]]
+        key = "refresh-debouncer-stop-hang" if r["sig"] == "flusher-exited-before-quit" else "refresh-debouncer-stop-hang-" + (r["sig"] or "other")
+        ctx.violation(key, "refreshDebouncer.stop() did not return within the watchdog on the real debouncer under the %s "
+                      "(the flusher, woken for a refresh, saw `stopped` and returned; stop blocks on the unbuffered quit send)" % (
+                          "deadlock schedule TLC derives from Lifecycle.tla" if r["origin"] == "cex" else "simulation walk %d" % r["n"]),
+                      dict(schedule=[s for s in deb_scheds if s["n"] == r["n"]][:1], result={k: r[k] for k in r if k != "dump"}, stack=r["dump"]))
+    unanswered = sum(1 for r in dres for v in r["req"].values() if v == "waiting")
+    unfollowed = sum(1 for r in dres if r["stuck"])
+
+    # ---- 4c. named scenarios
+    sres = vf.read_ndjson(scn)
+    for r in sres:
+        if r["err"]:
+            raise vf.Inconclusive("scenario %s could not be set up: %s" % (r["name"], r["err"]))
+        ctx.log("scenario %-36s %s%s" % (r["name"], r["obs"], ("  -> " + r["viol"]) if r["viol"] else ""))
+        if r["viol"]:
+            ctx.violation(r["viol"], r["what"] + " [scenario " + r["name"] + "]", dict(observation=r["obs"], detail=r["detail"]))
+
+    # ---- 4d. randomized Session runs validated by TLC
+    sviol, sdrift, slines, rmon3 = _monitor(ctx, str_, "mon_sess")
+    note(rmon3, "Trace_PoolMon(sessions)")
+    info = {}
+    ip = str_ + ".info"
+    if os.path.exists(ip):
+        for r in vf.read_ndjson(ip):
+            info[r.get("sched")] = r
+    ssum = json.loads(re.search(r"^VFSUMMARY (.*)$", outs["sess"], re.M).group(1))
+    if ssum["Errors"] > ssum["Runs"] // 4:
+        raise vf.Inconclusive("%d of %d session runs could not be set up" % (ssum["Errors"], ssum["Runs"]))
+    strace = vf.read_ndjson(str_)
+    sby = collections.defaultdict(list)
+    for rec in strace:
+        sby[rec["sched"]].append(rec)
+    batch_of = lambda n: (n - 1) // 8
+    bad_batches = set(batch_of(v["sched"]) for v in sviol if v["kind"] in ("CloseReturns", "AllConnsClosedAfterClose"))
+    for v in sviol:
+        i = info.get(v["sched"], {})
+        kind = v["kind"]
+        if kind == "GoroutinesExit" and (v["sched"] - 100000) in bad_batches:
+            continue  # what a hanging Close / a leaked connection of the same batch left behind: already reported
+        if kind == "CloseReturns":
+            key = "session-close-hang:" + (i.get("sig") or "unknown")
+            what = "Session.Close did not return within the watchdog (10x the largest configured timeout) in a randomized run"
+        elif kind == "AllConnsClosedAfterClose":
+            key = "conn-leak-after-close:" + (i.get("leak") or "unclassified")
+            what = "connections stayed open after Session.Close returned"
+        elif kind == "GoroutinesExit":
+            rec = [r for r in sby[v["sched"]] if r["ev"] == "b_end"][0]
+            key = "goroutine-leak-after-close:" + rec["q"]
+            what = "driver goroutines were still running after every session of the batch had been closed: " + rec["q"]
+        elif kind == "QueryAfterClose":
+            key = "query-after-close-not-refused"
+            what = "a query issued after Close returned did not fail with ErrSessionClosed"
+        elif kind == "CallersReturn":
+            if i.get("stuck") == "Session.refreshRing":
+                key = "refresh-now-after-stop-unanswered"
+                what = ("Session.refreshRing() (the call controlConn.reconnect makes) racing Session.Close never returned: "
+                        "refreshNow() after stop() registers a listener nobody answers")
+            else:
+                key = "caller-stuck-after-close:" + (i.get("stuck") or "unknown")
+                what = "a call that was in flight during Close never returned (" + (i.get("stuck") or "?") + ")"
+        else:
+            key, what = POOL_KEYS.get(kind, ("pool-" + kind, kind))
+            what += " (pool of a real Session)"
+        ctx.violation(key, "%s [run %d: %s]" % (what, v["sched"], i.get("plan", "")),
+                      dict(info={k: (x[:4000] if isinstance(x, str) else x) for k, x in i.items()}, trace=sby[v["sched"]][-60:]))
+    cdrift = [d for d in sdrift if d["kind"] == "cancel_before_pools"]
+    sdrift = [d for d in sdrift if d["kind"] != "cancel_before_pools"]
+    if cdrift:
+        ctx.add_drift("Session.Close cancelled the session context before closing the pools in %d runs (Lifecycle.tla: "
+                      "CancelAfterPools); no property clause was contradicted on the explored runs" % len(set(d["sched"] for d in cdrift)))
+    if sdrift:
+        ctx.add_drift("session pool hooks disagree with the monitor's count on %d records (first: %s)" % (len(sdrift), sdrift[0]))
+    nsess = sum(1 for r in strace if r["ev"] == "s_end")
+    ctx.log("sessions: %d runs, %d records evaluated by TLC, %d invariant violations" % (nsess, slines, len(sviol)))
+
+    # ---- 5. thorough: the same drivers under the race detector
+    races = []
+    if not quick:
+        rbin = vf.build_gotest(ctx, ".", ["common", "c17"], race=True)
+        rtr = os.path.join(ctx.tmp, "race_sessions.ndjson")
+        rc, out = vf.run_gotest(ctx, rbin, "^TestVfC17Sessions$", env={"VF_TRACES": rtr, "VF_NRUNS": 96, "VF_BATCH": 8}, timeout=900)
+        rptr = os.path.join(ctx.tmp, "race_pool.ndjson")
+        rc2, out2 = vf.run_gotest(ctx, rbin, "^TestVfC17PoolReplay$",
+                                  env={"VF_SCHEDULES": psp, "VF_TRACES": rptr, "VF_PAR": 8}, timeout=900)
+        harness_only = 0
+        seen = set()
+        for acc, drv, blk in _race_reports(out + out2):
+            if not drv:
+                harness_only += 1
+                continue
+            f = re.sub(r".*gocql\.", "", drv[0])
+            f = f.replace("(*", "").replace(")", "")
+            if f in seen:
+                continue
+            seen.add(f)
+            races.append(f)
+            ctx.violation("data-race:" + f, "the race detector reported a data race inside package gocql (%s) while a Session was "
+                          "shared between goroutines" % f, blk[:6000])
+        if harness_only:
+            raise vf.Inconclusive("%d race reports between harness functions only: the harness itself races" % harness_only)
+        ctx.log("race detector: %d reports in driver code" % len(races))
+
+    # ---- 6. model results
+    for f in bg:
+        r, cfg = f.result()
+        if not r.ok:
+            raise vf.Inconclusive("model pass %s failed: violated=%s error=%s\n%s" % (cfg, r.violated, r.error, r.out[-2500:]))
+        note(r, cfg)
+    for f, (cfg, expect, what) in zip(exh, DEFECT_EXHIBITS):
+        r, _ = f.result()
+        if r.violated != expect:
+            raise vf.Inconclusive("model %s should exhibit %s (%s) but gave violated=%s error=%s" % (cfg, expect, what, r.violated, r.error))
+        note(r, cfg)
+    r, _ = exh_pool.result()
+    if r.violated != "ReportedNotInPool":
+        raise vf.Inconclusive("Pool.tla with Defect_AddDeadConn = TRUE should violate ReportedNotInPool, got %s / %s" % (r.violated, r.error))
+    note(r, "MC_Pool_defect")
+    note(re_, "MC_Pool_edges")
+    pool.shutdown()
+
+    sample = scheds[len(scheds) // 3]
+    ctx.cov = dict(
+        states=states, transitions=trans,
+        traces_validated_against_impl=psum["Schedules"] + len(dres) + nsess + len(sres),
+        exhaustive=True,
+        pool_graph_states=len(g.nodes), pool_graph_edges=g.nedges, pool_gate_level_edges=nmacro,
+        pool_schedules_replayed=psum["Schedules"], pool_steps_replayed=psum["Steps"], pool_schedules_following_model=followed,
+        pool_schedules_diverged=len(diverged), pool_simulation_walks=nwalk, pool_trace_records_monitored=plines,
+        debouncer_behaviours_replayed=len(dres), debouncer_counterexample_reproduced=bool(cexr["hang"]),
+        debouncer_walks_hanging=sum(1 for r in dres if r["hang"] and r["n"] != 0), debouncer_walks_not_followable=unfollowed,
+        refresh_now_after_stop_unanswered=unanswered,
+        scenarios={r["name"]: (r["viol"] or "ok") + " | " + r["obs"] for r in sres},
+        session_runs=nsess, session_records_monitored=slines, session_setup_errors=ssum["Errors"],
+        race_reports_in_driver=races if not quick else "not run in the quick tier",
+        model_configs=configs,
+        samples=[dict(kind="pool schedule", n=sample["n"], steps=["%s %s%s" % (s["cmd"], s["f"], s["c"] or "") for s in sample["steps"]],
+                      final=sample["steps"][-1]["exp"]),
+                 dict(kind="debouncer deadlock schedule from TLC", steps=["%s %s" % (s["cmd"], s["who"]) for s in cex_sched["steps"]],
+                      real_result={k: cexr[k] for k in ("hang", "sig", "exited", "followed", "steps")})],
+    )
+    ctx.notes.append("observations (not verdicts): refreshNow() after stop() unanswered in %d replayed requests; "
+                     "eventDebouncer.stop() is not idempotent but Session.Close guards it" % unanswered)
+    ctx.assumptions += [
+        "bounded instances: pool size 2 (3 in the thorough tier), 2-3 fill triggers, 2 failing connects, 1 node-side kill, 1-2 Close calls; "
+        "Lifecycle with 2 closers, 1 requester, 1 debounce, 1 event, 1 failing probe, 1 control-connection failure, 1 host addition",
+        "liveness under weak fairness of every driver goroutine; real-time bounds only by watchdogs (>= 10x the configured timeouts)",
+        "data races are observed only by the race detector on the executed schedules (thorough tier)",
+        "the steps of Pool.tla that no hook outside the lock separates (FillEnd, HandleError, spawned fill's first check, closing the "
+        "taken connections) are replayed with priority (eager sub-graph); the full interleaving is covered by the model pass only",
+    ]
